@@ -544,3 +544,17 @@ package fontscan
 //@ func fontSet.selectByFamilyWithSubs C14
 //@   mode int
 //@   modifies unspecified
+//
+// deserializeIndex ("writing a font index and reading it back yields an identical index"): the reader rejects a file
+// only for a reason the writer cannot produce - a failed read or decompression, another format version, or an entry
+// that does not parse. In particular there is no size limit on an entry (the writer has none).
+//@ func deserializeIndex C16
+//@   mode int
+//   (call sites are numbered in the engine's block order, which here is from the last Errorf of the source to the first)
+//@   assert_at call Errorf#1 : [only-on-entry-error] err != nil
+//@   assert_at call Errorf#2 : [only-on-read-error] err != nil
+//@   assert_at call Errorf#3 : [only-on-read-error] err != nil
+//@   assert_at call Errorf#4 : [only-on-version-mismatch] version != cacheFormatVersion
+//@   assert_at call Errorf#5 : [only-on-read-error] err != nil
+//@   assert_at call Errorf#6 : [only-on-gzip-error] err != nil
+//@   modifies unspecified
